@@ -34,11 +34,11 @@ EMIT = {
               ("PSpec", "{1, 2}", 1, 1, "TRUE", "FALSE", None), ("SSpec", "{1, 2, 3}", 3, 2, "TRUE", "TRUE", 120)],
     "thorough": [("PSpec", "{1, 2}", 2, 0, "TRUE", "TRUE", None), ("PSpec", "{1, 2, 3}", 1, 0, "TRUE", "TRUE", None),
                  ("PSpec", "{1, 2}", 1, 1, "TRUE", "TRUE", None), ("PSpec", "{1, 2}", 3, 0, "FALSE", "FALSE", None),
-                 ("PSpec", "{1, 2}", 2, 1, "FALSE", "FALSE", None),
+                 ("PSpec", "{1, 2}", 1, 2, "TRUE", "FALSE", None),
                  ("SSpec", "{1, 2, 3}", 3, 2, "TRUE", "TRUE", 1500), ("SSpec", "{1, 2, 3, 4}", 2, 1, "TRUE", "TRUE", 800),
                  ("SSpec", "{1, 2}", 4, 3, "TRUE", "TRUE", 500)],
 }
-FREE_RUNS = {"quick": 40, "thorough": 600}
+FREE_RUNS = {"quick": 40, "thorough": 400}
 
 EXPECT_POINT = {"GetCall": ("get_want",), "GetLock": ("get_cs",), "GetPop": ("get_post",), "GetCreateBegin": ("get_create",),
                 "GetCreateEnd": ("get_post",), "GetCreateFail": ("idle", "done"), "GetReturn": ("holding",),
@@ -548,7 +548,7 @@ def check_c19(tier):
     if n_done and not n_cs:
         raise ToolError("the POOL_LOCK_HELD hook never fired in %d runs (%d guards handed out): bump-scope was built without "
                         "working cfg(bump_scope_verif) hooks" % (len(traces), n_done))
-    accepted, rejected, viols = validate(wd, traces, nproc=8 if thorough else 6, part_events=max(4000, min(nev // 6 + 1, 25000)))
+    accepted, rejected, viols = validate(wd, traces, nproc=10 if thorough else 6, part_events=max(4000, min(nev // 6 + 1, 20000)))
     log("[C19] %d events validated: %d runs accepted, %d rejected, %d contract violations (%.0fs)"
         % (nev, len(accepted), len(rejected), len(viols), time.time() - t0))
     acc_set = set(accepted)
